@@ -89,7 +89,10 @@ func (c *Cluster) Dataset(i int, id uuid.UUID) *storage.Dataset {
 
 // Form starts node 0 as the bootstrap node and lets the others join through it, one at a time, each join settled
 // (every member's zero group lists the joiner) before the next. "" or the reason it did not get there.
-func (c *Cluster) Form() string {
+func (c *Cluster) Form() string { return c.FormFirst(len(c.Nodes)) }
+
+// FormFirst forms the cluster from the first n nodes; the others may join later (JoinSettled).
+func (c *Cluster) FormFirst(n int) string {
 	if err := c.Start(0, true); err != nil {
 		return "bootstrap-node-did-not-start"
 	}
@@ -98,7 +101,17 @@ func (c *Cluster) Form() string {
 		return "bootstrap-node-did-not-elect-itself"
 	}
 	c.Nodes[0].Joined = true
-	for i := 1; i < len(c.Nodes); i++ {
+	for i := 1; i < n; i++ {
+		if why := c.JoinSettled(i); why != "" {
+			return why
+		}
+	}
+	return ""
+}
+
+// JoinSettled starts node i, joins it through node 0 and waits until every member's zero group lists it.
+func (c *Cluster) JoinSettled(i int) string {
+	{
 		if err := c.Start(i, false); err != nil {
 			return "joiner-did-not-start"
 		}
@@ -109,7 +122,10 @@ func (c *Cluster) Form() string {
 		settled := false
 		for r := 0; r < 1500 && !settled; r++ {
 			settled = true
-			for k := 0; k <= i; k++ {
+			for k := range c.Nodes {
+				if !c.Nodes[k].Joined || !c.Nodes[k].Up() {
+					continue
+				}
 				nodes := c.Nodes[k].Zero.VerifConfNodes()
 				if nodes == nil {
 					nodes = c.Nodes[k].Mon.MembersAt(c.Nodes[k].Zero.VerifStatus().Applied)
